@@ -30,7 +30,7 @@ ASSUMPTIONS = [
     "nested loads are counted by wrapping the read_sunvox_file names imported into rv.modules.metamodule / rv.modules.sampler (the wrapper calls the original)",
 ]
 REQUIRED_LABELS = {
-    "quick": ["read_fault_raised", "chunk_fault_raised", "fault_in_nested_load", "truncated", "semantic_failure", "path_access", "flag_initially_false", "path_bad_file", "diagnostic_fault_raised", "warnings_as_errors", "lenient_load_with_out_of_range_values"],
+    "quick": ["read_fault_raised", "chunk_fault_raised", "fault_in_nested_load", "truncated", "semantic_failure", "path_access", "flag_initially_false", "path_bad_file", "diagnostic_fault_raised", "warnings_as_errors", "lenient_load_with_out_of_range_values", "read_fault_kind_ESTALE", "read_fault_kind_InjectedBaseFault", "read_fault_kind_MemoryError"],
     "thorough": ["read_fault_raised", "chunk_fault_raised", "fault_in_nested_load", "truncated", "semantic_failure", "path_access", "flag_initially_false", "diagnostic_fault_raised", "warnings_as_errors", "lenient_load_with_out_of_range_values"],
 }
 
@@ -185,11 +185,12 @@ def one_load(ctx, ident, data, path, access, flag0, fault):
     from rv.api import m, read_sunvox_file
     from rv.errors import ControllerValueError
 
-    kind, pos = fault
+    kind, pos = fault[0], fault[1]
+    exc_index = fault[2] if len(fault) > 2 else ((pos or 0) + (0 if flag0 else 5) + (3 if access == "path" else 0))
     rv.errors.RAISE_CONTROLLER_VALUE_ERRORS = flag0
-    rec = {"file": ident, "fault": kind, "position": pos, "flag_initially": flag0, "access": access}
+    rec = {"file": ident, "fault": kind, "position": pos, "flag_initially": flag0, "access": access, "exception": faults.FAULT_KINDS[exc_index % len(faults.FAULT_KINDS)][0] if kind == "read" else None, "exc_index": exc_index}
     raised = None
-    tracker = faults.TrackedOpen(fail_at=pos if (kind == "read" and access == "path") else None)
+    tracker = faults.TrackedOpen(fail_at=pos if (kind == "read" and access == "path") else None, exc_index=exc_index)
     stream = None
     info = {}
     try:
@@ -201,11 +202,11 @@ def one_load(ctx, ident, data, path, access, flag0, fault):
                         read_sunvox_file(__import__("pathlib").Path(path) if (pos or 0) % 2 else str(path))
                     else:
                         src = data if kind != "truncate" else data[:pos]
-                        stream = faults.FaultyFile(BytesIO(src), pos if kind == "read" else None)
+                        stream = faults.FaultyFile(BytesIO(src), pos if kind == "read" else None, exc_index)
                         read_sunvox_file(stream)
                 except BaseException as e:  # noqa: BLE001  (KeyboardInterrupt is not expected here)
                     if isinstance(e, (KeyboardInterrupt, SystemExit)):
-                        raise
+                        raise  # a real interruption of the check itself, not an injected one
                     raised = e
             info["chunks"] = cstate["n"]
             info["diagnostics"] = dstate["n"]
@@ -408,6 +409,17 @@ def run_item(ctx, env, item):
                 n_nt += 1
             elif inf["read_fired"]:
                 ctx.label("read_fault_swallowed")
+        # every kind of failure a read can end in (errno values, non-OSError exceptions, a BaseException)
+        # at the first reads, the middle and the last read
+        for k in sorted({0, 1, 2, kk // 2, kk - 1}) if (thorough or ci in (0, 2)) else []:
+            if not (0 <= k < kk):
+                continue
+            for xi in range(len(faults.FAULT_KINDS)):
+                r, inf = one_load(ctx, ident, data, path, access, flag0, ("read", k, xi))
+                ctx.case()
+                if inf["read_fired"] and r is not None:
+                    ctx.label("read_fault_kind_" + faults.FAULT_KINDS[xi][0])
+                    n_nt += 1
         js = list(range(J)) if full else sorted({0, 1, 2, J - 1} | {j + ci % stride for j in range(0, J, stride)})
         for jj in js:
             if not (0 <= jj < J):
@@ -529,7 +541,7 @@ def replay(ctx, doc):
             vb = dict(out_of_range_variants(data))[r["file"].split("#", 1)[1]]
             one_load(c2, r["file"], vb, path, "stream", r["flag_initially"], (r["fault"], r["position"]))
         else:
-            one_load(c2, r["file"], data, path, r["access"], r["flag_initially"], (r["fault"], r["position"]))
+            one_load(c2, r["file"], data, path, r["access"], r["flag_initially"], (r["fault"], r["position"]) + ((r["exc_index"],) if r.get("exc_index") is not None else ()))
         if c2.failures:
             f = c2.failures[0]
             raise PropertyViolation(f["sub_oracle"], f["detail"], f["key"])
